@@ -1,9 +1,10 @@
 """python3-vt -m pyvc.cli <contract id> ... : verify contracts and print a summary (development tool)."""
 import json
+import os
 import sys
 import time
 
-sys.path.insert(0, "/verif")
+sys.path.insert(0, os.path.dirname(os.path.dirname(os.path.abspath(__file__))))
 
 
 def main():
